@@ -204,7 +204,7 @@ def shard(shard, nshards, n, seed):
 
 def run(tier: str) -> int:
     run_ = Run(PROP, tier, "exploration", RULE)
-    n = 7 if tier == "quick" else thorough(30)
+    n = 12 if tier == "quick" else thorough(30)
     parts = run_shards(shard, 16, n=n, seed=verif_seed())
     for part in parts:
         if part.get("crash"):
